@@ -6,6 +6,7 @@
 //!   blob.enc <hex> | blob.dec <hex> | blob.cmp <hex> <hex>
 //!   ser <val> | wr <val> <cursor> <extra> | de <kind> <cursor> <hexbuf> | cast <val> <kind>
 //!   key <kind,kind…> <search val,val…> <cell val,val…>      (B+tree key comparison, CellComparator)
+//!   sql <kind> <val,val…>      (one-column table through the public Database API: ORDER BY, DISTINCT, GROUP BY, IN, =, <, >=, PK)
 //!   pair <a> <b> | hash <val> | laws <v1> [<v2> [<v3> [<v4>]]]
 //! Values: `n`, `b:0|1`, `i:<i32>`, `I:<i64>`, `u:<u32>`, `U:<u64>`, `f:<f32 bits>`, `d:<f64 bits>`, `x:<hex|->`.
 use super::{Case, Engine, Tier};
@@ -520,11 +521,165 @@ fn exec_line(line: &str) -> String {
     }
 }
 
+// ---- SQL sub-mode ------------------------------------------------------------------------------------------
+
+const P53: i128 = 1 << 53;
+
+/// A SQL expression that evaluates to exactly this value. Numeric literals are lexed as `f64`
+/// (sql/parser/lexer.rs), so integers beyond 2^53 are spelled as exact integer arithmetic over smaller literals.
+fn sql_literal(v: &DataType) -> Option<String> {
+    fn int_lit(n: i128) -> Option<String> {
+        let m = n.unsigned_abs() as i128;
+        if m >= 1 << 62 {
+            return None;
+        }
+        let pos = if m <= P53 { format!("{}", m) } else { format!("(9007199254740992 * {} + {})", m >> 53, m & (P53 - 1)) };
+        Some(if n < 0 { format!("(0 - {})", pos) } else { pos })
+    }
+    fn float_lit(x: f64) -> Option<String> {
+        if !x.is_finite() || (x == 0.0 && x.is_sign_negative()) {
+            return None;
+        }
+        let m = format!("{}", x.abs());
+        if m.contains('e') || m.contains('E') {
+            return None;
+        }
+        Some(if x < 0.0 { format!("(0 - {})", m) } else { m })
+    }
+    match v {
+        DataType::Null => Some("NULL".into()),
+        DataType::Bool(b) => Some(if b.value() { "TRUE".into() } else { "FALSE".into() }),
+        DataType::Int(i) => int_lit(i.0 as i128),
+        DataType::BigInt(i) => int_lit(i.0 as i128),
+        DataType::UInt(i) => int_lit(i.0 as i128),
+        DataType::BigUInt(i) => int_lit(i.0 as i128),
+        DataType::Float(f) => float_lit(f.0 as f64),
+        DataType::Double(f) => float_lit(f.0),
+        DataType::Blob(b) => {
+            let d = b.data().ok()?;
+            if d.iter().all(|c| c.is_ascii_alphanumeric() || *c == b' ') {
+                Some(format!("'{}'", String::from_utf8_lossy(d)))
+            } else {
+                None
+            }
+        }
+    }
+}
+
+fn sql_type(kind: DataTypeKind) -> &'static str {
+    match kind {
+        DataTypeKind::Bool => "BOOLEAN",
+        DataTypeKind::Int => "INT",
+        DataTypeKind::BigInt => "BIGINT",
+        DataTypeKind::UInt => "UINT",
+        DataTypeKind::BigUInt => "BIGUINT",
+        DataTypeKind::Float => "FLOAT",
+        DataTypeKind::Double => "DOUBLE",
+        DataTypeKind::Blob => "TEXT",
+        DataTypeKind::Null => "NULL",
+    }
+}
+
+fn exec_sql(kind: DataTypeKind, vals: &[DataType]) -> String {
+    use axmosdb::{DBConfig, Database};
+    let lits: Option<Vec<String>> = vals.iter().map(sql_literal).collect();
+    let Some(lits) = lits else { return "unsupported-literal".into() };
+    let nanos = std::time::SystemTime::now().duration_since(std::time::UNIX_EPOCH).unwrap().as_nanos() as u64;
+    let dir = std::env::temp_dir().join(format!("axv-c19-sql-{}-{:x}", std::process::id(), nanos));
+    if std::fs::create_dir_all(&dir).is_err() {
+        return "ERR:tmpdir".into();
+    }
+    let out = (|| -> Result<String, String> {
+        let db = Database::create(dir.join("v.db"), DBConfig::default()).map_err(|e| format!("ERR:create {}", e))?;
+        let run = |sql: &str| db.execute(sql).map_err(|e| format!("ERR:{} ## {}", sql.split(' ').next().unwrap_or(""), e));
+        // a single-column result as value strings
+        let col = |sql: &str, c: usize| -> Result<Vec<Vec<String>>, String> {
+            let rows = run(sql)?.into_rows().ok_or_else(|| "ERR:norows".to_string())?;
+            Ok(rows.iterrows().map(|r| r.iter().take(c).map(show_value).collect()).collect())
+        };
+        let show_l = |xs: Vec<String>| format!("[{}]", xs.join(","));
+        run(&format!("CREATE TABLE t (x INT, v {})", sql_type(kind)))?;
+        for (i, l) in lits.iter().enumerate() {
+            run(&format!("INSERT INTO t VALUES ({}, {})", i, l))?;
+        }
+        let first = |rows: Vec<Vec<String>>| rows.into_iter().map(|mut r| r.remove(0)).collect::<Vec<_>>();
+        let asc = first(col("SELECT v FROM t ORDER BY v", 1)?);
+        let desc = first(col("SELECT v FROM t ORDER BY v DESC", 1)?);
+        let mut distinct = first(col("SELECT DISTINCT v FROM t", 1)?);
+        distinct.sort();
+        let mut group: Vec<String> = col("SELECT v, COUNT(*) FROM t GROUP BY v", 2)?
+            .into_iter()
+            .map(|r| format!("{}:{}", r[0], r[1].trim_start_matches("I:")))
+            .collect();
+        group.sort();
+        let mut s = format!(
+            "order={} desc={} distinct={} group={}",
+            show_l(asc),
+            show_l(desc),
+            show_l(distinct),
+            show_l(group)
+        );
+        let nn: Vec<&String> = vals.iter().zip(&lits).filter(|(v, _)| !v.is_null()).map(|(_, l)| l).collect();
+        if let Some(p) = nn.first() {
+            let q = nn.get(1).unwrap_or(p);
+            let xs = |sql: String| -> Result<String, String> {
+                let mut r: Vec<i64> = first(col(&sql, 1)?)
+                    .iter()
+                    .filter_map(|x| x.trim_start_matches("i:").parse().ok())
+                    .collect();
+                r.sort();
+                Ok(show_l(r.iter().map(|x| x.to_string()).collect()))
+            };
+            s += &format!(" in={}", xs(format!("SELECT x FROM t WHERE v IN ({}, {})", p, q))?);
+            s += &format!(" eq={}", xs(format!("SELECT x FROM t WHERE v = {}", p))?);
+            s += &format!(" lt={}", xs(format!("SELECT x FROM t WHERE v < {}", p))?);
+            s += &format!(" ge={}", xs(format!("SELECT x FROM t WHERE v >= {}", p))?);
+            // PRIMARY KEY in a database of its own, and at most six rows: the eighth insert into a table with a
+            // primary key aborts in page defragmentation (storage/core/buffer.rs:897, outside this property)
+            let dir2 = dir.join("pk");
+            std::fs::create_dir_all(&dir2).map_err(|_| "ERR:tmpdir".to_string())?;
+            let db2 = Database::create(dir2.join("k.db"), DBConfig::default()).map_err(|e| format!("ERR:create {}", e))?;
+            db2.execute(&format!("CREATE TABLE k (v {}, x INT, PRIMARY KEY (v))", sql_type(kind)))
+                .map_err(|e| format!("ERR:CREATE ## {}", e))?;
+            let mut pk = Vec::new();
+            for (i, l) in nn.iter().take(6).enumerate() {
+                pk.push(match db2.execute(&format!("INSERT INTO k VALUES ({}, {})", l, i)) {
+                    Ok(_) => "o".to_string(),
+                    Err(e) if e.to_string().contains("UNIQUE constraint") => "d".to_string(),
+                    Err(e) => format!("E ## {}", e),
+                });
+            }
+            s += &format!(" pk={}", show_l(pk));
+        }
+        Ok(s)
+    })();
+    let _ = std::fs::remove_dir_all(&dir);
+    match out {
+        Ok(s) => s,
+        Err(e) => e,
+    }
+}
+
 impl Engine for ValueEngine {
     fn exec(&mut self, line: &str) -> String {
         let ws: Vec<&str> = line.split_whitespace().collect();
         if let ["key", ks, tv, cv] = ws.as_slice() {
             return self.exec_key(ks, tv, cv);
+        }
+        if let ["sql", k, vs] = ws.as_slice() {
+            let kind = parse_kind(k);
+            let vals: Option<Vec<DataType>> = vs.split(',').map(parse_value).collect();
+            return match (kind, vals) {
+                (Some(kind), Some(vals))
+                    if kind != DataTypeKind::Null
+                        && !vals.is_empty()
+                        && vals.len() <= 40
+                        && vals.iter().all(|v| v.is_null() || v.kind() == kind) =>
+                {
+                    exec_sql(kind, &vals)
+                }
+                _ => "bad-op".into(),
+            };
         }
         exec_line(line)
     }
@@ -538,6 +693,7 @@ impl Engine for ValueEngine {
         gen_cast(rng, scale, &mut cases);
         gen_compare(rng, scale, &mut cases);
         gen_keys(rng, scale, &mut cases);
+        gen_sql(rng, scale, &mut cases);
         cases
     }
 }
@@ -1403,6 +1559,47 @@ fn gen_keys(rng: &mut Rng, scale: u64, cases: &mut Vec<Case>) {
     }
 }
 
+/// SQL sub-mode: single-column tables of values that SQL literals can express exactly (no NaN, no -0.0, no
+/// infinities, |integers| < 2^62, text of ASCII letters), with duplicates, NULLs, integers around 2^53 and
+/// prefix-related strings.
+fn gen_sql(rng: &mut Rng, scale: u64, cases: &mut Vec<Case>) {
+    let p53 = 1i64 << 53;
+    let ints: Vec<i64> = vec![0, 1, -1, 2, 7, -7, 16777216, 16777217, p53 - 1, p53, p53 + 1, p53 + 2, -p53, -p53 - 1, (1 << 61) + 1, 1 << 61];
+    let doubles: Vec<f64> = vec![0.0, 1.0, -1.0, 0.5, 1.5, -1.5, 0.25, 2.5, 16777217.0, 9007199254740992.0, 100.125, 1e20, -1e20, 0.1, 0.2, 0.30000000000000004];
+    let texts: Vec<&str> = vec!["", "a", "ab", "abc", "abd", "b", "B", "abcdefgh", "abcdefghi", "abcdefghj", "zzzzzzzzzzzzzzzzzzzzzzzz", "a b"];
+    let kinds = ["bool", "int", "bigint", "uint", "biguint", "float", "double", "blob"];
+    for _ in 0..250 * scale {
+        let k = *rng.pick(&kinds);
+        let n = 2 + rng.below(9) as usize;
+        let mut vals: Vec<String> = Vec::new();
+        for _ in 0..n {
+            if rng.chance(1, 8) {
+                vals.push("n".into());
+                continue;
+            }
+            if !vals.is_empty() && rng.chance(1, 5) {
+                vals.push(rng.pick(&vals).clone()); // duplicate
+                continue;
+            }
+            vals.push(match k {
+                "bool" => format!("b:{}", rng.below(2)),
+                "int" => format!("i:{}", if rng.chance(1, 2) { *rng.pick(&ints[..8]) } else { rng.range(-50, 50) }),
+                "bigint" => format!("I:{}", if rng.chance(2, 3) { *rng.pick(&ints) } else { rng.range(-(1 << 60), 1 << 60) }),
+                "uint" => format!("u:{}", if rng.chance(1, 2) { rng.pick(&ints[..8]).unsigned_abs() } else { rng.below(1 << 32) }),
+                "biguint" => format!("U:{}", if rng.chance(2, 3) { rng.pick(&ints).unsigned_abs() } else { rng.below(1 << 61) }),
+                "float" => format!("f:{}", ((rng.range(-4000, 4000) as f32) / 8.0).to_bits()),
+                "double" => format!("d:{}", if rng.chance(2, 3) { *rng.pick(&doubles) } else { rng.range(-100000, 100000) as f64 / 16.0 }.to_bits()),
+                _ => format!("x:{}", hex_or_dash(rng.pick(&texts).as_bytes())),
+            });
+        }
+        if vals.iter().any(|v| v == "d:9223372036854775808" || v == "f:2147483648") {
+            continue; // -0.0 cannot be written as a SQL literal
+        }
+        let kt = format!("sql-{}", k);
+        cases.push(Case::new(format!("sql {} {}", k, vals.join(",")), &["sql", &kt, "nt"]));
+    }
+}
+
 fn related_value_same_kind(rng: &mut Rng, a: &str, kind: &str, grid: &[String]) -> String {
     for _ in 0..8 {
         let r = related_value(rng, a);
@@ -1456,7 +1653,58 @@ fn related_value(rng: &mut Rng, a: &str) -> String {
     }
 }
 
-/// Content of `lean/AxVerif/Generated/Value.lean`, if this engine extracts constants from the code.
+/// `Generated/Value.lean`: the constants and tables of the type system as the code defines them, obtained by
+/// evaluating the code (kind discriminants, sizes, alignments, `MAX_VARINT_LEN`, key offset, cast matrix).
 pub fn generated() -> Option<(&'static str, String)> {
-    None
+    let mut s = String::new();
+    s.push_str("/- REGENERATED on every run by `axh extract` from values evaluated out of /repo. Do not edit. -/\n");
+    s.push_str("import AxVerif.Model.Value\n");
+    s.push_str("namespace AxVerif.Generated\n\n");
+    s.push_str("def valueParams : AxVerif.Value.Params :=\n");
+    s.push_str(&format!("  {{ maxVarintLen := {}\n", hooks::max_varint_len()));
+    let mut kinds = Vec::new();
+    let mut all = Vec::new();
+    for d in 0u8..=255 {
+        if let Some(k) = DataTypeKind::from_repr(d) {
+            let size = match k.fixed_size() {
+                Some(n) => format!("some {}", n),
+                None => "none".to_string(),
+            };
+            kinds.push(format!(
+                "(\"{}\", {}, {}, {}, {})",
+                k.name().to_lowercase(),
+                k.as_u8(),
+                size,
+                k.align(),
+                k.is_numeric()
+            ));
+            all.push(k);
+        }
+    }
+    s.push_str(&format!("    kinds := [{}]\n", kinds.join(", ")));
+    s.push_str(&format!("    keysOffset1 := {}\n", hooks::keys_offset(1)));
+    let sample = |k: DataTypeKind| -> DataType {
+        match k {
+            DataTypeKind::Null => DataType::Null,
+            DataTypeKind::Bool => DataType::Bool(true.into()),
+            DataTypeKind::Int => DataType::Int(Int32(1)),
+            DataTypeKind::BigInt => DataType::BigInt(Int64(1)),
+            DataTypeKind::UInt => DataType::UInt(UInt32(1)),
+            DataTypeKind::BigUInt => DataType::BigUInt(UInt64(1)),
+            DataTypeKind::Float => DataType::Float(Float32(1.0)),
+            DataTypeKind::Double => DataType::Double(Float64(1.0)),
+            DataTypeKind::Blob => DataType::Blob(Blob::from_unencoded_slice(b"a")),
+        }
+    };
+    let mut ok = Vec::new();
+    for a in &all {
+        for b in &all {
+            if sample(*a).try_cast(*b).is_ok() {
+                ok.push(format!("({}, {})", a.as_u8(), b.as_u8()));
+            }
+        }
+    }
+    s.push_str(&format!("    castOk := [{}] }}\n", ok.join(", ")));
+    s.push_str("\nend AxVerif.Generated\n");
+    Some(("Value.lean", s))
 }
